@@ -124,10 +124,11 @@ fixed("C19", "pq-chunk-range-beyond-eof-spin-or-abort", "7bb335251", "read_parqu
 fixed("C19", "pq-footer-length-unchecked", "b391e4093", "the footer's metadata length sized a buffer without a file-size check (multi-GiB allocation + zeroing for a corrupt trailer)", ["C15"])
 fixed("C10", "pq-delta-binary-packed-multi-read", "3a2a4d053", "DELTA_BINARY_PACKED returned wrong rows whenever a page was read in more than one batch (previous value re-emitted at each call) and panicked on single-value pages", ["C16", "C03"])
 fixed("C10", "pq-int96-before-epoch", "07fa15e89", "INT96 timestamps before 1970 panicked (subtract with overflow) / wrapped", ["C15"])
-fixed("C10", "pq-binary-delta-utf8-validated", "a6a95659f", "BINARY columns with DELTA_LENGTH_BYTE_ARRAY / DELTA_BYTE_ARRAY were UTF-8 validated and failed on non-UTF-8 bytes", [])
+fixed("C10", "pq-binary-delta-utf8-validated", "119380801", "BINARY columns with DELTA_LENGTH_BYTE_ARRAY / DELTA_BYTE_ARRAY were UTF-8 validated and failed on non-UTF-8 bytes", [])
 fixed("C10", "pq-v2-is-compressed-ignored", "274a5a0ab", "data page v2 is_compressed=false was ignored when the chunk declares a codec", [])
 fixed("C11", "pq-pruning-deprecated-stats-unsigned", "1d88cdccf", "row-group pruning trusted deprecated signed-order min/max on unsigned columns and pruned groups containing the searched value", [])
 fixed("C11", "glob-absolute-path-root", "232040201", "globs over absolute local paths were resolved relative to the working directory", [])
+fixed("C14", "insert-column-list-ignored", "09b3e0874", "INSERT INTO t (col, ..) ignored the column list and inserted positionally, silently storing values in the wrong columns", ["C01"])
 fixed("C17", "csv-last-record-without-newline-dropped", "901a81dae", "read_csv dropped the last record of a file not ending in a line break", ["C11"])
 fixed("C17", "csv-inference-ignores-unterminated-last-record", "8f587fc55", "dialect/type inference ignored the final record without line break even when the whole file was in the sample", [])
 fixed("C17", "csv-partial-record-leading-empty-fields-lost", "5395bbc8c", "leading empty fields of a record split across reads were lost (clear_completed discarded field ends of a partial record with no bytes yet), so results depended on read chunking/batch size", ["C03", "C16"])
